@@ -1,6 +1,6 @@
 (** Properties/C10.v — Derive-time validation accepts exactly the well-formed declarations.
     Statements only. *)
-From DarlingModel Require Import Options.Resolve Options.FieldOrderProofs Options.VariantOrderProofs.
+From DarlingModel Require Import Options.Resolve Options.FieldOrderProofs Options.VariantOrderProofs Options.ContainerOrderProofs.
 From Coq Require Import Permutation.
 Local Open Scope string_scope.
 Local Open Scope list_scope.
@@ -122,6 +122,32 @@ Example C10_variant_nonvacuous :
   /\ snd (parse_attributes (variant_step (fun _ _ => None) (fun _ => None)) (mkV "V" None None None StTuple []) [attr [w]]) <> [].
 Proof. cbv zeta. repeat split; vm_compute; try discriminate; reflexivity. Qed.
 
+(** The CONTAINER option chain of every derive, for every list of `#[darling(..)]` attributes that
+    are words or lists of meta items: it reports no error exactly when - over ALL the attributes -
+    no option is unknown or malformed, each of `map` / `and_then` (together), `allow_unknown_fields`,
+    `from_word`, `from_none` occurs at most once (the other container options may be repeated: the
+    last one wins), and no `default` is preceded by a `default` or by a `from_ident`.  The last
+    clause is the only place in darling's derive-time validation where order matters; it is the
+    recorded finding (`from_ident` installs a stand-in default), stated here exactly. *)
+Theorem C10_container_accepts_exactly :
+  forall reparse reparse_preds t attrs,
+    Forall list_attr attrs ->
+    let l := map (cview reparse reparse_preds t) (flat_items attrs) in
+    (snd (parse_attributes (container_step reparse reparse_preds t) copts0 attrs) = [] <->
+     ccnt CoErr l = 0%nat /\ (ccnt CoPost l <= 1)%nat /\ (ccnt CoAuk l <= 1)%nat /\ (ccnt CoFromWord l <= 1)%nat /\ (ccnt CoFromNone l <= 1)%nat
+     /\ forall pre suf, l = pre ++ CoDefault :: suf -> ccnt CoDefault pre = 0%nat /\ ccnt CoFromIdent pre = 0%nat).
+Proof. exact container_attrs_accept_exactly. Qed.
+
+(** Where `from_ident` is not written (FromMeta and FromAttributes never have it) acceptance of
+    the container options is order- and split-free. *)
+Theorem C10_container_order_and_split_free_without_from_ident :
+  forall reparse reparse_preds t attrs attrs',
+    Forall list_attr attrs -> Forall list_attr attrs' -> Permutation (flat_items attrs) (flat_items attrs') ->
+    ccnt CoFromIdent (map (cview reparse reparse_preds t) (flat_items attrs)) = 0%nat ->
+    (snd (parse_attributes (container_step reparse reparse_preds t) copts0 attrs) = []
+     <-> snd (parse_attributes (container_step reparse reparse_preds t) copts0 attrs') = []).
+Proof. exact container_attrs_order_and_split_free_without_from_ident. Qed.
+
 Print Assumptions C10_rejection_is_never_empty.
 Print Assumptions C10_field_accept_iff_well_formed.
 Print Assumptions C10_well_formedness_is_order_free.
@@ -130,3 +156,5 @@ Print Assumptions C10_field_step_refines_abstract_step.
 Print Assumptions C10_container_order_dependence_refuted.
 Print Assumptions C10_variant_accept_iff_well_formed.
 Print Assumptions C10_variant_acceptance_order_and_split_free.
+Print Assumptions C10_container_accepts_exactly.
+Print Assumptions C10_container_order_and_split_free_without_from_ident.
